@@ -71,7 +71,8 @@ Singles(q) ==
 (* the quote kinds a pair (index i in the fixed order of all pairs) is taken under in the quick sample *)
 PairSeq(d) == SetToSeq(Body(ClassNames) \X ClassNames)
 QuickQuotes(i, a, b) ==
-  IF a \in Hot \/ b \in Hot THEN {"tpl", <<"sq", "dq", "tag">>[((i + Seed) % 3) + 1]}
+  IF a \in Hot /\ b \in Hot THEN Quotes
+  ELSE IF a \in Hot \/ b \in Hot THEN {<<"tpl", "tpl", "tag">>[((i + Seed) % 3) + 1], <<"sq", "dq">>[((i + Seed) % 2) + 1]}
   ELSE {<<"sq", "dq", "tpl">>[((i + Seed) % 3) + 1]} \cup (IF (i + Seed) % 16 = 0 THEN {"tag"} ELSE {})
 
 (* <<quote, body>> pairs *)
@@ -86,8 +87,8 @@ StrBodies(d) ==
           UNION {UNION {QB(q, {Pair(P[i][1], P[i][2], q)}) : q \in QuickQuotes(i, P[i][1], P[i][2])} : i \in 1..Len(P)}
           \* seeded slices: spelling variants of the pairs, triples and quadruples over the reduced alphabets
           \cup UNION {QB(q, EveryNth({<<AltEl(a, q), PrefEl(b, q)>> : a \in Body(ClassNames), b \in ClassNames}
-                                     \cup {<<PrefEl(a, q), AltEl(b, q)>> : a \in Body(ClassNames), b \in ClassNames}, 48)
-                            \cup EveryNth(Seqs3(q, Reduced2), 80) \cup EveryNth(Seqs4(q, Reduced), 200)) : q \in Quotes}
+                                     \cup {<<PrefEl(a, q), AltEl(b, q)>> : a \in Body(ClassNames), b \in ClassNames}, 96)
+                            \cup EveryNth(Seqs3(q, Reduced2), 160) \cup EveryNth(Seqs4(q, Reduced), 400)) : q \in Quotes}
         ELSE
           UNION {QB(q, {Pair(P[i][1], P[i][2], q) : i \in 1..Len(P)}) : q \in Quotes}
           \cup UNION {QB(q, {<<AltEl(a, q), PrefEl(b, q)>> : a \in Body(ClassNames), b \in ClassNames}
@@ -111,7 +112,8 @@ StrCase(i, s, q) ==
    src |-> [k \in 1..Len(s) |-> Piece(s[k])], labels |-> BodyLabels(s, q), ctxs |-> CtxsFor(i, s, q),
    usestrict |-> IsUseStrict(s)]
 
-ReSeqs == {<<a>> : a \in ReAtoms} \cup {<<a, b>> : a \in ReAtoms, b \in ReAtoms}
+ReSeqs == {<<a>> : a \in ReAtoms}
+          \cup (IF Size = 2 THEN EveryNth({<<a, b>> : a \in ReAtoms, b \in ReAtoms}, 2) ELSE {<<a, b>> : a \in ReAtoms, b \in ReAtoms})
           \cup (IF Size >= 3 THEN {<<a, b, c>> : a \in ReAtoms, b \in ReAtoms, c \in ReAtoms} ELSE {})
 ReCase(s, f) ==
   [family |-> "re", flags |-> f, atoms |-> [i \in 1..Len(s) |-> s[i].name],
@@ -193,7 +195,7 @@ CombosSomewhere == Family # "str" \/ \A e \in ClassNames \X Spellings :
 (* every ordered pair of classes is adjacent under some quote kind; pairs with a quote-sensitive class under every quote kind; *)
 (* NUL followed by each digit class under a template and under a string placed in strict code                                 *)
 RequiredPairs == IF Family # "str" THEN {} ELSE
-  {<<q, a, b>> \in (IF Size >= 3 THEN Quotes ELSE {"tpl"}) \X Body(ClassNames) \X ClassNames : (a \in Hot \/ b \in Hot) /\ SeqOK(Pair(a, b, q), q)}
+  {<<q, a, b>> \in Quotes \X Body(ClassNames) \X ClassNames : (IF Size >= 3 THEN a \in Hot \/ b \in Hot ELSE a \in Hot /\ b \in Hot) /\ SeqOK(Pair(a, b, q), q)}
 PairSomewhere == Family # "str" \/ \A a \in Body(ClassNames), b \in ClassNames : \E q \in Quotes : <<q, a, b>> \in TLCGet(4)
 RequiredCtxs == IF Family # "str" THEN {} ELSE
   UNION {{<<q, c.name>> : q \in c.quotes} : c \in {x \in Contexts : x.quick \/ Size >= 3}}
